@@ -27,6 +27,7 @@ use crate::types::{
 
 enum CachedLogSafety {
     Uncomputed,
+    InProgress,
     Computed(Option<LogSafety>),
 }
 
@@ -43,6 +44,7 @@ pub struct Context {
     serialize_empty_collections: bool,
     strip_prefix: Vec<String>,
     version: Option<String>,
+    log_safety_depth: Cell<usize>,
 }
 
 impl Context {
@@ -59,6 +61,7 @@ impl Context {
             serialize_empty_collections,
             strip_prefix: vec![],
             version: version.map(str::to_owned),
+            log_safety_depth: Cell::new(0),
         };
 
         if let Some(strip_prefix) = strip_prefix {
@@ -1032,12 +1035,16 @@ impl Context {
     fn type_log_safety_ref(&self, name: &TypeName) -> Option<LogSafety> {
         let ctx = &self.types[name];
 
-        if let CachedLogSafety::Computed(safety) = &*ctx.log_safety.borrow() {
-            return safety.clone();
+        match &*ctx.log_safety.borrow() {
+            CachedLogSafety::Computed(safety) => return safety.clone(),
+            // temporarily treat it as safe in case of recursive type definitions.
+            CachedLogSafety::InProgress => return Some(LogSafety::Safe),
+            CachedLogSafety::Uncomputed => {}
         }
 
-        // temporarily treat it as safe in case of recursive type definitions.
-        *ctx.log_safety.borrow_mut() = CachedLogSafety::Computed(Some(LogSafety::Safe));
+        *ctx.log_safety.borrow_mut() = CachedLogSafety::InProgress;
+        let depth = self.log_safety_depth.get();
+        self.log_safety_depth.set(depth + 1);
 
         let safety = match &ctx.def {
             TypeDefinition::Alias(alias) => alias
@@ -1070,7 +1077,14 @@ impl Context {
                 .fold(None, |a, b| self.combine_safety(a, b)),
         };
 
-        *ctx.log_safety.borrow_mut() = CachedLogSafety::Computed(safety.clone());
+        self.log_safety_depth.set(depth);
+        // An answer computed below another in-progress type may rest on that type's provisional
+        // value, so only the outermost result is final.
+        *ctx.log_safety.borrow_mut() = if depth == 0 {
+            CachedLogSafety::Computed(safety.clone())
+        } else {
+            CachedLogSafety::Uncomputed
+        };
         safety
     }
 
